@@ -16,7 +16,8 @@ Mirrored Go code (as it is after the `fix:` commits listed in notes/C11.md):
   acquisition paired with the roll-back the code performs when that acquisition fails.
 * the permit lifecycles of `internal/endpoint/smtp/session.go` (`Mail`, `Rcpt`, `startDelivery`, `Data`,
   `Reset`, `Logout`, `releaseLimits`, together with go-smtp's `fromReceived`/`recipients` gating) and of
-  `internal/target/remote` (`Target.Start`, `connectionForDomain`, `remoteDelivery.Close`) — `Sess`, `Rem`.
+  `internal/target/remote` (`Target.Start`, `AddRcpt` → `connectionForDomain` → `conn.Rcpt` with the RCPT
+  accepted / refused / failed with the connection lost, `Body`, `remoteDelivery.Close`) — `Sess`, `Rem`.
 
 Concurrency: any number of goroutines (`Task`), each executing Group calls one limiter operation (one
 channel operation / one critical section of `BucketSet.mLck`) at a time; the schedule (`List Ev`: who moves,
@@ -509,24 +510,48 @@ structure Rem where
   conns : List Nat := []      -- keys of rd.connections
 deriving DecidableEq, Repr
 
+/-- What the next hop did with the RCPT command sent over the connection `connectionForDomain` returned. -/
+inductive RcptRes
+  | accepted     -- 250
+  | refused      -- a 4xx/5xx reply, the connection stays usable
+  | lost         -- 421 reply, connection dropped, command time-out, non-SMTP error
+deriving DecidableEq, Repr
+
 inductive RemOp
   | start                                      -- Target.Start
-  | addRcpt (d : Nat) (connOk mailOk : Bool)   -- AddRcpt → connectionForDomain(d)
+  | addRcpt (d : Nat) (connOk mailOk : Bool) (rc : RcptRes := .accepted)
+                                               -- AddRcpt → connectionForDomain(d) → conn.Rcpt
+  | body                                       -- Body / BodyNonAtomic: DATA on every entry of rd.connections
   | close                                      -- Commit/Abort → Close
 deriving DecidableEq, Repr
+
+/-- `conn.Rcpt` on the entry of `rd.connections` for `d`, fresh or reused.  Whatever the next hop does with
+the command — accepted, refused, or the connection is lost (421, drop, time-out, non-SMTP error) — `AddRcpt`
+only hands the error back (`return moduleError(err)`): the entry stays in `rd.connections` (so `Close`
+releases its destination permit) and no Group call is made. -/
+def Rem.rcpt (r : Rem) (_d : Nat) : RcptRes → Rem × List Call
+  | .accepted => (r, [])
+  | .refused => (r, [])
+  | .lost => (r, [])
 
 def Rem.op (r : Rem) (takeOk : Bool) : RemOp → Rem × List Call
   | .start =>
     if r.started then (r, [])
     else if takeOk then ({ r with started := true, conns := [] }, [Call.takeMsg r.ip r.dom])
     else (r, [Call.takeMsg r.ip r.dom])
-  | .addRcpt d connOk mailOk =>
+  | .addRcpt d connOk mailOk rc =>
     if !r.started then (r, [])
-    else if r.conns.contains d then (r, [])            -- connection of this delivery reused
-    else if !connOk then (r, [])                       -- MX lookup / connect / TLS / policy failed
+    else if r.conns.contains d then r.rcpt d rc        -- connection of this delivery reused
+    else if !connOk then (r, [])                       -- MX lookup / connect / greeting / TLS / policy failed
     else if !takeOk then (r, [Call.takeDest d])
-    else if !mailOk then (r, [Call.takeDest d, Call.relDest d])
-    else ({ r with conns := d :: r.conns }, [Call.takeDest d])
+    else if !mailOk then (r, [Call.takeDest d, Call.relDest d])   -- MAIL refused / connection lost at MAIL
+    else
+      let r' := ({ r with conns := d :: r.conns } : Rem).rcpt d rc
+      (r'.1, Call.takeDest d :: r'.2)
+  | .body =>
+    -- DATA accepted, refused or lost on any connection: `errored` is set (the connection is closed instead
+    -- of pooled by `Close`), `rd.connections` keeps every entry, no Group call.
+    (r, [])
   | .close =>
     if !r.started then (r, [])
     else ({ r with started := false, conns := [] },
